@@ -11,7 +11,7 @@ use crate::hist::{Obs, Op, Scenario, Table, FIXED_PATH};
 use crate::histcheck::{Judgement, Tier, Violation};
 use crate::rng::Rng;
 use crate::seam::CLOCK_FLOOR;
-use crate::sexp::{lex, Tok};
+use crate::sexp::{lex_spans, Tok};
 use std::collections::BTreeMap;
 
 const BENIGN: [&str; 5] = ["/dev/mapper/mdt0", "/", "/dev/sdb1", "/mnt/lustre-MDT0000", "mdt0"];
@@ -89,7 +89,11 @@ pub fn random_path(rng: &mut Rng, class: PathClass) -> String {
             if rng.chance(1, 8) {
                 let mut s = String::from("/");
                 // a few KiB usually; now and then beyond 64 KiB
-                let n = if rng.chance(1, 12) { rng.range(65_530, 70_000) } else { *rng.pick(&[255u64, 256, 1000, 4095, 4096, 4097]) };
+                let n = match rng.below(60) {
+                    0 => 1 << 20, // 1 MiB
+                    1..=4 => rng.range(65_530, 70_000),
+                    _ => *rng.pick(&[255u64, 256, 1000, 4095, 4096, 4097]),
+                };
                 for i in 0..n {
                     s.push(if i % 17 == 16 { '/' } else { (b'a' + (i % 26) as u8) as char });
                 }
@@ -178,9 +182,41 @@ fn many_devices_scenario(rng: &mut Rng, tier: Tier) -> Scenario {
     Scenario { subjects: vec![subject], paths, clock_start: CLOCK_FLOOR + rng.below(1 << 30), hash_seed: rng.next_u64(), ops }
 }
 
+/// Many compiled expressions that look alike (same length, same options), rendered for the same
+/// few devices: state shared between different compiled expressions under a weak key would
+/// hand one expression another one's program.
+fn many_expressions_scenario(rng: &mut Rng) -> Scenario {
+    let n = rng.range(8, 40) as usize;
+    let kind = rng.below(3);
+    let subjects: Vec<String> = (0..n)
+        .map(|i| {
+            let c = (b'a' + (i % 26) as u8) as char;
+            let d = (b'a' + ((i / 26) % 26) as u8) as char;
+            match kind {
+                0 => format!("-name {c}{d} -print"),
+                1 => format!("-name {c}{d}.log -fprint out.txt"),
+                _ => format!("-size +{}c -name {c}{d} -print0", i % 10),
+            }
+        })
+        .collect();
+    let paths = vec![FIXED_PATH.to_string(), "/dev/mapper/mdt0".to_string(), "/dev/mapper/mdt1".to_string(), "mdt\"2".to_string()];
+    let mut ops = vec![];
+    for (i, _) in subjects.iter().enumerate() {
+        ops.push(Op::Compile { subj: i, slot: i, script: vec![], twice: false });
+    }
+    for _ in 0..rng.range(30, 120) {
+        let slot = rng.usize_below(n);
+        ops.push(if rng.chance(1, 8) { Op::IoMap { slot } } else { Op::Render { slot, path: rng.usize_below(paths.len()) } });
+    }
+    Scenario { subjects, paths, clock_start: CLOCK_FLOOR + rng.below(1 << 30), hash_seed: rng.next_u64(), ops }
+}
+
 pub fn scenario(rng: &mut Rng, tier: Tier) -> Scenario {
     if rng.chance(1, 60) {
         return many_devices_scenario(rng, tier);
+    }
+    if rng.chance(1, 80) {
+        return many_expressions_scenario(rng);
     }
     let n_subjects = rng.range(1, 3) as usize;
     let mut subjects = vec![];
@@ -273,8 +309,10 @@ pub fn scenario(rng: &mut Rng, tier: Tier) -> Scenario {
 }
 
 /// Tokens of one rendering; the program must tokenise and have balanced parentheses.
-fn tokens_of(text: &str) -> Result<Vec<Tok>, String> {
-    let tokens = lex(text).map_err(|e| format!("the program does not tokenise: {e}"))?;
+fn tokens_of(text: &str) -> Result<(Vec<Tok>, Vec<(usize, usize)>), String> {
+    let spanned = lex_spans(text).map_err(|e| format!("the program does not tokenise: {e}"))?;
+    let spans: Vec<(usize, usize)> = spanned.iter().map(|(_, a, b)| (*a, *b)).collect();
+    let tokens: Vec<Tok> = spanned.into_iter().map(|(t, _, _)| t).collect();
     let mut depth = 0i64;
     for t in &tokens {
         match t {
@@ -291,7 +329,7 @@ fn tokens_of(text: &str) -> Result<Vec<Tok>, String> {
     if depth != 0 {
         return Err("the program has unclosed parentheses".into());
     }
-    Ok(tokens)
+    Ok((tokens, spans))
 }
 
 /// Where a single rendering names its device, judged by position alone (used when a handle was
@@ -337,6 +375,8 @@ struct Handle {
     renders: BTreeMap<usize, (usize, String)>,
     /// tokens of the first rendering: (op, path index, tokens)
     reference: Option<(usize, usize, Vec<Tok>)>,
+    /// text and token spans of the first rendering (for the byte-level comparison)
+    reference_text: Option<(String, Vec<(usize, usize)>)>,
     /// index of the device string, once a rendering for a second path has pointed at it
     device_index: Option<usize>,
 }
@@ -359,7 +399,7 @@ pub fn judge(sc: &Scenario, obs: &[(usize, Obs)]) -> Judgement {
         // a render is either an explicit Render op or the FIXED_PATH render taken at compile time
         let render: Option<(usize, usize, &String)> = match o {
             Obs::Compiled { slot, text: Ok(t), table, .. } => {
-                if let Some(old) = handles.insert(*slot, Handle { compile_op: *i, table: table.clone(), renders: BTreeMap::new(), reference: None, device_index: None }) {
+                if let Some(old) = handles.insert(*slot, Handle { compile_op: *i, table: table.clone(), renders: BTreeMap::new(), reference: None, reference_text: None, device_index: None }) {
                     retired.push(old);
                 }
                 distinct_paths_rendered.remove(slot);
@@ -425,7 +465,7 @@ pub fn judge(sc: &Scenario, obs: &[(usize, Obs)]) -> Judgement {
             }
         }
         // the program still reads as a program
-        let tokens = match tokens_of(text) {
+        let (tokens, spans) = match tokens_of(text) {
             Ok(t) => t,
             Err(why) => {
                 fail!("device-path-breaks-program", vec![h.compile_op, *i], "slot {slot}: rendering for {} at op {i}: {why}", show(path));
@@ -433,7 +473,10 @@ pub fn judge(sc: &Scenario, obs: &[(usize, Obs)]) -> Judgement {
         };
         // P2 single point of variation, P3 decoding
         match &h.reference {
-            None => h.reference = Some((*i, path_idx, tokens)),
+            None => {
+                h.reference = Some((*i, path_idx, tokens));
+                h.reference_text = Some((text.clone(), spans));
+            }
             Some((op0, p0, toks0)) => {
                 j.bump("path_pairs_compared", 1);
                 let path0 = &sc.paths[*p0];
@@ -508,6 +551,21 @@ pub fn judge(sc: &Scenario, obs: &[(usize, Obs)]) -> Judgement {
                             }
                         }
                         h.device_index = Some(*d);
+                        // "exactly one place" at byte level too: everything before and after the
+                        // device literal (layout, comments, line breaks) is the same text
+                        if let Some((text0, spans0)) = &h.reference_text {
+                            let (a0, b0) = spans0[*d];
+                            let (a1, b1) = spans[*d];
+                            if text0[..a0] != text[..a1] || text0[b0..] != text[b1..] {
+                                fail!(
+                                    "renderings-differ-beyond-device-path",
+                                    vec![h.compile_op, *op0, *i],
+                                    "slot {slot}: renderings for {} (op {op0}) and {} (op {i}) have the same tokens but differ in layout or comments outside the device string",
+                                    show(path0),
+                                    show(path)
+                                );
+                            }
+                        }
                     }
                     more => {
                         fail!(
